@@ -287,14 +287,16 @@ def random_doc(rng, vocab):
         used += cs
         tmpl = rng.choice(shapes)
         x = i * 10
-        if tmpl.count("%") == 3 and "%s%s" in tmpl.replace('"', ""):
-            pass
+        # class names are separated by white space: one blank, several, a tab, a line break (a wrapped class list), leading / trailing blanks
+        joined = cs[0] + "".join(rng.choice([" ", " ", " ", "  ", "\t", "\n    ", " \t "]) + c for c in cs[1:])
+        if rng.random() < 0.1:
+            joined = rng.choice([" ", "\n"]) + joined + rng.choice(["", " "])
         if tmpl.startswith("<line"):
-            lines.append("  " + tmpl % (x, x + 5, " ".join(cs)))
+            lines.append("  " + tmpl % (x, x + 5, joined))
         elif tmpl.count("%s") == 2:
-            lines.append("  " + tmpl % (x, " ".join(cs), ' text="l"' if rng.random() < 0.5 else ""))
+            lines.append("  " + tmpl % (x, joined, ' text="l"' if rng.random() < 0.5 else ""))
         else:
-            lines.append("  " + tmpl % (x, " ".join(cs)))
+            lines.append("  " + tmpl % (x, joined))
     author_styles = author_defs = 0
     if rng.random() < 0.4:
         lines.insert(rng.randint(0, len(lines)), "  <style>%s</style>" % AUTHOR_STYLE)
